@@ -12,7 +12,7 @@ import random
 
 from .. import common, identlib
 from ..gen import cfggen
-from ..translate import hashflags
+from ..translate import hashflags, argflags
 
 def cfgbuild_refs(v):
     if isinstance(v, dict):
@@ -32,6 +32,8 @@ GOLDEN = common.VERIF / "corpus" / "golden_identifiers.json"
 
 def prove(ctx):
     msgs = [hashflags.generate(common.REPO, common.LEAN, probe=identlib.loop_flag_probe(ctx))]
+    msgs.append(argflags.generate(common.REPO, common.LEAN))   # Generated/ArgFlags.lean: the driver derives the argument flags with it
+    ctx.notes.append(f"translator(argflags): {msgs[-1][1]}")
     ctx.notes.append(f"translator(hashflags): {msgs[0][1]}")
     common.check_proofs(ctx, MODULES, translate_msgs=msgs)
 
